@@ -455,8 +455,11 @@ class Recfile(object):
 
         if self.is_ascii:
             # for ascii, make sure the data are in native format.  This greatly
-            # simplifies the C code
-            to_native_inplace(dataview)
+            # simplifies the C code.  Convert a copy: the view shares its
+            # buffer with the caller's array
+            if _needs_byteswap(dataview):
+                dataview = dataview.copy()
+                to_native_inplace(dataview)
 
         self.robj.Write(dataview)
 
@@ -980,9 +983,9 @@ def remove_dtype_byteorder(dtype):
     return newdt
 
 
-def to_native_inplace(array):
+def _needs_byteswap(array):
     """
-    Convert to native byte ordering in place
+    True if the array is not in native byte order
     """
 
     if numpy.little_endian:
@@ -1001,7 +1004,15 @@ def to_native_inplace(array):
                 data_little = True
                 break
 
-    if (machine_little and not data_little) or (not machine_little and data_little):  # noqa
+    return (machine_little and not data_little) or (not machine_little and data_little)  # noqa
+
+
+def to_native_inplace(array):
+    """
+    Convert to native byte ordering in place
+    """
+
+    if _needs_byteswap(array):
 
         outdata = array.byteswap(True)
         outdata.dtype = outdata.dtype.newbyteorder()
